@@ -18,8 +18,8 @@ used only by `Witness/C08.lean`.
 Platform names are arbitrary strings (`Label.platform : S`; FlowIR validates `platforms` as a list of strings and
 nothing more): the `.*` of the pattern accepts every character of a platform name - dashes, dots, blanks, colons,
 metacharacters - so `invalidates` puts no condition on the platform part (`Props/C08.invalidates_iff_label_matches`).
-The one character `.` does not match is a line break; labels with a line break inside the platform name are outside
-the model (and outside the generator of harness/c08.py).
+The pattern carries `(?s)` so that `.` matches a line break too (before /repo 'fix: ... line break' it did not, and
+entries of a platform whose name contains one survived); such names are in the generator of harness/c08.py.
 -/
 namespace St4sd.Tree
 open St4sd.Str
